@@ -242,8 +242,15 @@ func (m *Model) Run(hist []string) *proto.Result {
 			return r
 		}
 	}
+	var opViol []string
 	for i, ev := range hist {
 		ok, err := w.Apply(ev)
+		if err != nil && (ev[0] == 'i' || ev[0] == 'k' || ev[0] == 'n') && i == len(hist)-1 {
+			// a wallet operation that the wallet's own status enables fails in a fault-free
+			// history (e.g. re-importing the mnemonic of a wallet whose removal completed)
+			opViol = append(opViol, fmt.Sprintf("operation %s fails in a fault-free history: %v", ev, err))
+			break
+		}
 		if err != nil {
 			r.Err = fmt.Sprintf("event %d %s: %v", i, ev, err)
 			return r
@@ -275,8 +282,10 @@ func (m *Model) Run(hist []string) *proto.Result {
 	if m.O.Import || m.O.Remove {
 		pre = w.CheckTaskStates()
 		if err := w.CompleteTasks(); err != nil {
-			r.Err = "completing background tasks: " + err.Error()
-			return r
+			// a fault-free history: an accepted import or removal that never completes is a
+			// violation (C07 "ends, when the background import finishes", C08 "after a wallet
+			// removal completes ... the same mnemonic can be imported again", C20)
+			pre = append(pre, "background work does not complete: "+err.Error())
 		}
 		for len(w.N.Queue) > 0 {
 			if err := w.Deliver(); err != nil {
@@ -287,6 +296,7 @@ func (m *Model) Run(hist []string) *proto.Result {
 	}
 	diffs, obs := w.CheckLedger()
 	diffs = append(diffs, pre...)
+	diffs = append(diffs, opViol...)
 	if m.O.Import || m.O.Remove {
 		diffs = append(diffs, w.CheckTasksDone()...)
 	}
